@@ -37,6 +37,97 @@ scon::scon (layout const &l)
   : m_buf (l.size (), 85)
 {}
 
+#ifdef DWGREP_VERIF
+# include <cstdio>
+# include <cstdlib>
+# include <unistd.h>
+
+namespace
+{
+  FILE *
+  verif_trace ()
+  {
+    static FILE *f = [] () -> FILE *
+      {
+	char const *fn = getenv ("DWGREP_VERIF_SCON_TRACE");
+	return fn != nullptr ? fopen (fn, "a") : nullptr;
+      } ();
+    return f;
+  }
+
+  [[noreturn]] void
+  verif_fail (char const *what, size_t loc, size_t size)
+  {
+    fprintf (stderr, "DWGREP_VERIF scon: %s (offset %zu, size %zu)\n",
+	     what, loc, size);
+    abort ();
+  }
+}
+
+size_t
+scon::verif_next_id ()
+{
+  static size_t id = 0;
+  return id++;
+}
+
+void
+scon::verif_event (char kind, size_t loc, size_t size)
+{
+  if (FILE *f = verif_trace ())
+    {
+      if (m_verif_live.empty () && kind == 'c')
+	// So that the trace says how large the area is.
+	fprintf (f, "%d.%zu a %zu 0\n", (int) getpid (), m_verif_id, m_buf.size ());
+      fprintf (f, "%d.%zu %c %zu %zu\n", (int) getpid (), m_verif_id, kind, loc, size);
+    }
+
+  if (loc + size > m_buf.size ())
+    verif_fail ("state outside of the state area", loc, size);
+
+  auto it = m_verif_live.find (loc);
+  switch (kind)
+    {
+    case 'c':
+      {
+	// No live state may overlap the new one.
+	auto nx = m_verif_live.lower_bound (loc);
+	if (nx != m_verif_live.end () && nx->first < loc + size)
+	  verif_fail ("construction over a live state", loc, size);
+	if (nx != m_verif_live.begin ())
+	  {
+	    auto pv = std::prev (nx);
+	    if (pv->first + pv->second > loc)
+	      verif_fail ("construction over a live state", loc, size);
+	  }
+	m_verif_live[loc] = size;
+	break;
+      }
+    case 'g':
+      if (it == m_verif_live.end () || it->second != size)
+	verif_fail ("use of a state that is not constructed", loc, size);
+      break;
+    case 'd':
+      if (it == m_verif_live.end () || it->second != size)
+	verif_fail ("destruction of a state that is not constructed", loc, size);
+      m_verif_live.erase (it);
+      break;
+    }
+}
+
+scon::~scon ()
+{
+  if (FILE *f = verif_trace ())
+    {
+      fprintf (f, "%d.%zu e %zu 0\n", (int) getpid (), m_verif_id, m_verif_live.size ());
+      fflush (f);
+    }
+  if (! m_verif_live.empty ())
+    verif_fail ("state area destroyed with live states",
+		m_verif_live.begin ()->first, m_verif_live.begin ()->second);
+}
+#endif
+
 scon_guard::scon_guard (scon_guard &&mv)
   : m_sc {mv.m_sc}
   , m_op {mv.m_op}
